@@ -259,6 +259,8 @@ def rule_chr(c: Ctx) -> RuleResult:
                 break
         if not how:
             how = _origin_ord(c, f, call, arg)
+        if not how:
+            how = _valid_code_flow(c, f, call, arg)
         if how:
             r.add(key, c.where(f, call), f.short, U(call), "discharged", how)
         else:
@@ -267,6 +269,93 @@ def rule_chr(c: Ctx) -> RuleResult:
                   f"character: a numeric reference above 0x10FFFF raises ValueError")
     r.floor = 6
     return r
+
+
+class _ValidCodes(Problem):
+    """Names that hold a valid code point on every path: validated by a true isValidEntityCode test, or assigned an in-range
+    literal; any other assignment removes the name."""
+
+    def entry_state(self):
+        return frozenset()
+
+    def join(self, a, b, at):
+        return a & b
+
+    @staticmethod
+    def _lit_ok(v: ast.AST) -> bool:
+        return isinstance(v, ast.Constant) and isinstance(v.value, int) and not isinstance(v.value, bool) and 0 <= v.value <= 0x10FFFF
+
+    def edge(self, n: Node, state, label: str, succ: Node):
+        st = set(state)
+        a = n.ast
+        if a is None:
+            return frozenset(st)
+        if n.kind == "test" and label in ("T", "F"):
+            if isinstance(a, ast.Call) and U(a.func).split(".")[-1] == "isValidEntityCode" and len(a.args) == 1 and isinstance(a.args[0], ast.Name):
+                if label == "T":
+                    st.add(a.args[0].id)
+            return frozenset(st)
+        if n.kind == "stmt" and label != "exc":
+            if isinstance(a, ast.Assign):
+                for t in a.targets:
+                    for x in ast.walk(t):
+                        if isinstance(x, ast.Name) and isinstance(x.ctx, ast.Store):
+                            st.discard(x.id)
+                if len(a.targets) == 1 and isinstance(a.targets[0], ast.Name) and _valid_code_expr(a.value, frozenset(st)):
+                    st.add(a.targets[0].id)
+            elif isinstance(a, (ast.AugAssign, ast.AnnAssign)) and isinstance(a.target, ast.Name):
+                st.discard(a.target.id)
+                if isinstance(a, ast.AnnAssign) and a.value is not None and _valid_code_expr(a.value, frozenset(st)):
+                    st.add(a.target.id)
+        elif n.kind == "for" and label == "iter":
+            for x in ast.walk(a.target):
+                if isinstance(x, ast.Name):
+                    st.discard(x.id)
+        return frozenset(st)
+
+
+def _valid_code_expr(e: ast.AST, valid: frozenset) -> bool:
+    if _ValidCodes._lit_ok(e):
+        return True
+    if isinstance(e, ast.Name):
+        return e.id in valid
+    if isinstance(e, ast.IfExp):
+        t = e.test
+        neg = False
+        while isinstance(t, ast.UnaryOp) and isinstance(t.op, ast.Not):
+            t, neg = t.operand, not neg
+        if isinstance(t, ast.Call) and U(t.func).split(".")[-1] == "isValidEntityCode" and len(t.args) == 1 and isinstance(t.args[0], ast.Name):
+            x = t.args[0].id
+            yes, no = (e.orelse, e.body) if neg else (e.body, e.orelse)
+            return _valid_code_expr(yes, valid | {x}) and _valid_code_expr(no, valid)
+        return _valid_code_expr(e.body, valid) and _valid_code_expr(e.orelse, valid)
+    return False
+
+
+def _valid_code_flow(c: Ctx, f: Func, call: ast.Call, arg: ast.AST) -> str:
+    cfg = c.cfg(f)
+    res = solve(cfg, _ValidCodes(), widen_after=10**9)
+    owners = [n for n in cfg.owner(call) if res.get(n.id) is not None]
+    if not owners:
+        return ""
+    for n in owners:
+        valid = res[n.id]
+        # tests that dominate the call inside its own expression (`chr(x) if isValidEntityCode(x) else chr(0xFFFD)`)
+        q = f.module.parents.get(call)
+        cur: ast.AST = call
+        extra = set()
+        while q is not None and not isinstance(q, ast.stmt):
+            if isinstance(q, ast.IfExp) and cur is not q.test:
+                t, neg = q.test, False
+                while isinstance(t, ast.UnaryOp) and isinstance(t.op, ast.Not):
+                    t, neg = t.operand, not neg
+                if isinstance(t, ast.Call) and U(t.func).split(".")[-1] == "isValidEntityCode" and len(t.args) == 1 and isinstance(t.args[0], ast.Name):
+                    if (cur is q.body) != neg:
+                        extra.add(t.args[0].id)
+            cur, q = q, f.module.parents.get(q)
+        if not _valid_code_expr(arg, frozenset(valid) | extra):
+            return ""
+    return "on every path the value is validated by isValidEntityCode or replaced by an in-range literal (valid-code dataflow)"
 
 
 def _origin_ord(c: Ctx, f: Func, call: ast.Call, arg: ast.AST, depth: int = 0) -> str:
@@ -467,7 +556,8 @@ def rule_intarg(c: Ctx) -> RuleResult:
     return r
 
 
-def _int_source(c: Ctx, f: Func, e: ast.AST, at: ast.AST, rd: Reaching, regexes: dict, depth: int = 0) -> str:
+def _int_source(c: Ctx, f: Func, e: ast.AST, at: ast.AST, rd: Reaching, regexes: dict, depth: int = 0, use_at: ast.AST | None = None) -> str:
+    use_at = use_at or at          # where the value is consumed (conditions known there select among alternatives)
     if depth > 5:
         return "!a value whose provenance is too deep to follow"
     if isinstance(e, ast.Subscript):
@@ -476,7 +566,7 @@ def _int_source(c: Ctx, f: Func, e: ast.AST, at: ast.AST, rd: Reaching, regexes:
             # slice of the source: delimited by a scanner; that scanner must use code-point range tests (no Unicode predicate is
             # allowed anywhere in the phase - checked above)
             return "a source slice delimited by code-point range tests (no Unicode-aware predicate in the phase)"
-        return _int_source(c, f, base, at, rd, regexes, depth + 1)
+        return _int_source(c, f, base, at, rd, regexes, depth + 1, use_at)
     if isinstance(e, ast.Call) and isinstance(e.func, ast.Attribute) and e.func.attr == "group":
         m = e.func.value
         if isinstance(m, ast.Name):
@@ -484,11 +574,37 @@ def _int_source(c: Ctx, f: Func, e: ast.AST, at: ast.AST, rd: Reaching, regexes:
                 v = d.value
                 if v is None or not (isinstance(v, ast.Call) and isinstance(v.func, ast.Attribute) and isinstance(v.func.value, ast.Name)):
                     return f"!group of `{m.id}`, which is not the result of a module-level compiled pattern"
-                rx = regexes.get((f.module.rel, v.func.value.id))
-                if rx is None:
-                    return f"!group of a match against `{v.func.value.id}`, which is not a foldable regex constant"
-                if not _digit_group_ok(rx[0]):
-                    return f"!group of `{v.func.value.id}` = /{rx[0]}/, whose groups admit characters other than hex digits"
+                cands = [v.func.value.id]
+                if regexes.get((f.module.rel, cands[0])) is None:
+                    # pattern = RE_A if flag else RE_B: the alternative selected by what is known about the flag where int() runs
+                    pds = [x for x in rd.at_ast(d.stmt, cands[0])] if d.stmt is not None else []
+                    if len(pds) == 1 and pds[0].kind == "assign" and isinstance(pds[0].value, ast.IfExp) \
+                            and isinstance(pds[0].value.body, ast.Name) and isinstance(pds[0].value.orelse, ast.Name):
+                        ie = pds[0].value
+                        fcfg, fres = c.facts(f)
+                        known = None
+                        for nd in fcfg.owner(use_at):
+                            z = fres.get(nd.id)
+                            if z is None:
+                                continue
+                            rt_ = next((x for x in CFG.roots(nd) if any(y is use_at for y in ast.walk(x))), nd.ast)
+                            z = expr_local(z, use_at, rt_, f.module.parents) if rt_ is not None else z
+                            from ..facts import norm_pred
+                            t_, pol_ = norm_pred(ie.test, True)
+                            k_ = True if z.holds(t_, pol_) else (False if z.holds(t_, not pol_) else None)
+                            known = k_ if known is None or known == k_ else "mixed"
+                        if known is True:
+                            cands = [ie.body.id]
+                        elif known is False:
+                            cands = [ie.orelse.id]
+                        else:
+                            cands = [ie.body.id, ie.orelse.id]
+                for cn_ in cands:
+                    rx = regexes.get((f.module.rel, cn_))
+                    if rx is None:
+                        return f"!group of a match against `{cn_}`, which is not a foldable regex constant"
+                    if not _digit_group_ok(rx[0]):
+                        return f"!group of `{cn_}` = /{rx[0]}/, whose groups admit characters other than hex digits"
             return "group of a regex constant whose groups admit only (hex) digits"
         return "!a regex group whose match object cannot be traced"
     if isinstance(e, ast.Name):
@@ -497,17 +613,46 @@ def _int_source(c: Ctx, f: Func, e: ast.AST, at: ast.AST, rd: Reaching, regexes:
             return f"!`{e.id}` (no reaching definition)"
         outs = []
         for d in ds:
+            if d.kind == "param":
+                # a helper's parameter: judged on the actual argument at every call site
+                sites = [x for x in c.cg.callers.get(f, []) if x.kind in ("direct", "method")]
+                if not sites or len(sites) != len(c.cg.callers.get(f, [])):
+                    return f"!`{e.id}`, a parameter of a function that is not only called directly"
+                for x in sites:
+                    a_ = c.eff.arg_for_param(x, f, e.id)
+                    if a_ is None:
+                        return f"!`{e.id}`, a parameter whose argument cannot be identified at {x.caller.short}"
+                    o = _int_source(c, x.caller, a_, x.node, Reaching(c.cfg(x.caller)), regexes, depth + 1)
+                    if o.startswith("!"):
+                        return o
+                    outs.append(o + f" (argument at the call in {x.caller.short})")
+                continue
             if d.value is None or d.kind not in ("assign", "walrus"):
                 return f"!`{e.id}`, bound by {d.kind}"
-            o = _int_source(c, f, d.value, d.stmt, rd, regexes, depth + 1)
+            o = _int_source(c, f, d.value, d.stmt, rd, regexes, depth + 1, use_at)
             if o.startswith("!"):
                 return o
             outs.append(o)
         return outs[0]
     if isinstance(e, ast.IfExp):
-        a = _int_source(c, f, e.body, at, rd, regexes, depth + 1)
-        b = _int_source(c, f, e.orelse, at, rd, regexes, depth + 1)
+        a = _int_source(c, f, e.body, at, rd, regexes, depth + 1, use_at)
+        b = _int_source(c, f, e.orelse, at, rd, regexes, depth + 1, use_at)
         return a if a.startswith("!") else b
+    if isinstance(e, ast.Call):
+        # a private helper that returns the digits: every value it returns must have such a source
+        cs = c.cg.site_of.get(e)
+        if cs is not None and len(cs.callees) == 1 and cs.kind in ("direct", "method"):
+            g = cs.callees[0]
+            rets = [n for n in own_nodes(g.node) if isinstance(n, ast.Return) and n.value is not None]
+            if rets:
+                grd = Reaching(c.cfg(g))
+                outs2 = []
+                for rt in rets:
+                    o = _int_source(c, g, rt.value, rt, grd, regexes, depth + 1)
+                    if o.startswith("!"):
+                        return o
+                    outs2.append(o)
+                return outs2[0] + f" (returned by {g.short})"
     return f"!`{U(e)[:40]}`"
 
 
